@@ -15,6 +15,10 @@ type line struct {
 	// lazy: a paragraph continuation line that drops the markers of every
 	// enclosing block quote (only chosen when all enclosing containers are quotes).
 	lazy bool
+	// dropped counts the containers whose prefix a lazy line has left out so far
+	// (innermost first); an outer container may then go on leaving its own out,
+	// or write it, which ends the laziness for every container further out.
+	dropped int
 }
 
 // sctx is the serialisation context of a block.
@@ -24,6 +28,7 @@ type sctx struct {
 	firstInItem bool // first block of a list item: no extra indentation
 	inItem      bool // somewhere inside a list item (blank lines between blocks decide looseness there)
 	flush       bool // the previous sibling is a list: indentation would make this block part of its last item
+	interrupts  bool // no blank line separates this block from its previous sibling
 }
 
 // free reports whether the serializer may use its freedoms (not in the canonical profile).
@@ -81,7 +86,7 @@ func (g *gen) blockLines(b *blk, c sctx) []line {
 				g.f("spelling:continuation-indent")
 			}
 			out[i] = line{text: ind + l, sp: len(ind)}
-			if i > 0 && !verbatim && c.quoteOnly && c.inQuote && g.free() && ind == "" && startsWithWord(l) && g.r.Intn(5) == 0 {
+			if i > 0 && !verbatim && (c.inQuote || c.inItem) && (c.quoteOnly || !g.no("spelling:lazy-in-item")) && g.free() && ind == "" && startsWithWord(l) && g.r.Intn(5) == 0 {
 				out[i].lazy = true
 				g.f("spelling:lazy-continuation")
 			}
@@ -163,8 +168,13 @@ func (g *gen) blockLines(b *blk, c sctx) []line {
 		inner := g.blocksLines(b.kids, false, sctx{quoteOnly: c.quoteOnly, inQuote: true, inItem: c.inItem})
 		ind := g.indent(c)
 		for _, l := range inner {
+			if l.lazy && l.dropped > 0 && g.r.Intn(3) == 0 {
+				l.lazy = false // this quote and everything outside it write their prefixes
+				g.f("spelling:lazy-partial")
+			}
 			switch {
 			case l.lazy:
+				l.dropped++
 				out = append(out, l)
 			case l.text == "":
 				if g.free() && g.r.Bool() {
@@ -187,28 +197,72 @@ func (g *gen) blockLines(b *blk, c sctx) []line {
 	case kBullet, kOrdered:
 		var out []line
 		ind := g.indent(c)
+		// A loose list needs one blank line between two items or between two blocks of an
+		// item; the other items may follow each other directly.
+		gaps := make([]bool, len(b.items))
+		for i := 1; i < len(gaps); i++ {
+			gaps[i] = b.loose
+		}
+		if b.loose && g.free() && !g.no("spelling:loose-partial") && len(b.items) >= 2 {
+			multi, kept := false, 0
+			for _, item := range b.items {
+				multi = multi || len(item) >= 2
+			}
+			for i := 1; i < len(gaps); i++ {
+				if g.r.Intn(3) == 0 {
+					gaps[i] = false
+					g.f("spelling:loose-partial")
+				} else {
+					kept++
+				}
+			}
+			if !multi && kept == 0 {
+				gaps[1+g.r.Intn(len(gaps)-1)] = true
+			}
+		}
 		for i, item := range b.items {
 			marker := string(b.delim)
 			if b.k == kOrdered {
 				marker = strconv.Itoa(b.start+i) + string(b.delim)
 			}
-			if i > 0 && b.loose {
+			if gaps[i] {
 				out = append(out, line{})
 			}
+			if len(item) == 0 {
+				// an empty item: the marker alone (spaces after it change nothing)
+				out = append(out, line{text: ind + marker + g.trailing(), sp: len(ind) + len(marker)})
+				continue
+			}
 			n := 1
-			if g.free() && len(item) > 0 && item[0].k != kIndented && g.r.Intn(3) == 0 {
+			// An item may begin with one blank line: its content then starts on the next
+			// line, indented by the marker's width plus one. The first item of a list
+			// that interrupts a paragraph may not.
+			blankFirst := g.free() && !g.no("spelling:item-blank-first") && !(i == 0 && (c.interrupts || c.firstInItem)) && g.r.Intn(8) == 0
+			if !blankFirst && g.free() && item[0].k != kIndented && g.r.Intn(3) == 0 {
 				n = g.r.Range(2, 4)
 				g.f("spelling:marker-padding")
 			}
 			pad := strings.Repeat(" ", n)
 			cont := strings.Repeat(" ", len(ind)+len(marker)+n)
-			inner := g.blocksLines(item, !b.loose, sctx{firstInItem: true, inItem: true})
+			inner := g.blocksLines(item, !b.loose, sctx{firstInItem: !blankFirst, inItem: true})
+			if blankFirst {
+				g.f("spelling:item-blank-first")
+				out = append(out, line{text: ind + marker + g.trailing(), sp: len(ind) + len(marker)})
+			}
 			for j, l := range inner {
+				if l.lazy && j > 0 && l.dropped > 0 && g.r.Intn(3) == 0 {
+					l.lazy = false
+					g.f("spelling:lazy-partial")
+				}
 				switch {
-				case j == 0:
+				case j == 0 && !blankFirst:
 					out = append(out, line{text: ind + marker + pad + l.text, sp: len(ind) + len(marker) + n + l.sp})
 				case l.text == "":
 					out = append(out, line{})
+				case l.lazy:
+					l.dropped++
+					out = append(out, l)
+					g.f("spelling:lazy-out-of-item")
 				default:
 					out = append(out, line{text: cont + l.text, sp: len(cont) + l.sp})
 				}
@@ -279,6 +333,7 @@ func (g *gen) blocksLines(bs []*blk, tight bool, c sctx) []line {
 			bc.firstInItem = false
 		}
 		bc.flush = i > 0 && isList(bs[i-1])
+		bc.interrupts = i > 0 && (len(out) == 0 || out[len(out)-1].text != "")
 		out = append(out, g.blockLines(b, bc)...)
 	}
 	return out
@@ -338,9 +393,9 @@ func (g *gen) adjacentOK(prev, next *blk) bool {
 		case kBreak:
 			return breakOK
 		case kBullet:
-			return true // items always have content on their first line
+			return len(next.items[0]) > 0 // an empty item cannot interrupt a paragraph
 		case kOrdered:
-			return next.start == 1
+			return next.start == 1 && len(next.items[0]) > 0
 		case kHTML:
 			return next.level != 7 // start condition 7 cannot interrupt a paragraph
 		}
